@@ -117,6 +117,43 @@ def degenerate_matrix(rng, fam, kind, nmax):
     return dict(shape=[n, n], coo=[[i, j, w[(i, j)]] for (i, j) in sorted(E)], dtype='int', fmt='csr'), n, n
 
 
+def symmetric_unit(rng):
+    """Unit-weight, highly symmetric graphs (cliques, cycles, complete bipartite graphs, disjoint triangles, a cycle with a
+    pendant node): the inputs on which gains, votes and similarities tie EXACTLY, so that a test written `>=` instead of `>`
+    (or the reverse) lets a loop alternate for ever."""
+    shape = rng.choice(['clique', 'cycle', 'kab', 'triangles', 'cycle+pendant', 'two_cliques'])
+    E = set()
+    if shape == 'clique':
+        n = rng.randint(3, 7)
+        E = {(i, j) for i in range(n) for j in range(n) if i != j}
+    elif shape == 'cycle':
+        n = rng.randint(3, 9)
+        E = {(i, (i + 1) % n) for i in range(n)}
+    elif shape == 'kab':
+        a, b = rng.randint(1, 4), rng.randint(2, 4)
+        n = a + b
+        E = {(i, a + j) for i in range(a) for j in range(b)}
+    elif shape == 'triangles':
+        k = rng.randint(1, 3)
+        n = 3 * k + rng.randint(0, 1)
+        for t in range(k):
+            E |= {(3 * t, 3 * t + 1), (3 * t + 1, 3 * t + 2), (3 * t, 3 * t + 2)}
+    elif shape == 'cycle+pendant':
+        m = rng.randint(3, 6)
+        n = m + 1
+        E = {(i, (i + 1) % m) for i in range(m)} | {(0, m)}
+    else:
+        a = rng.randint(3, 4)
+        n = 2 * a
+        E = {(i, j) for i in range(a) for j in range(a) if i != j} | {(a + i, a + j) for i in range(a) for j in range(a) if i != j}
+        E.add((0, a))
+    E |= {(j, i) for (i, j) in E}
+    return dict(shape=[n, n], coo=[[i, j, 1] for (i, j) in sorted(E)], dtype='int', fmt='csr'), n, shape
+
+
+TIE_PARAMS = [{}, dict(resolution=0.5), dict(resolution=0), dict(resolution=2)]
+
+
 def oscillating(rng):
     """Small weighted digraphs with two seeds: the family on which default label propagation may alternate."""
     n = rng.randint(4, 8)
@@ -176,6 +213,23 @@ def run(ctx, scratch):
             spec = dict(shape=[n, n], coo=coo, dtype='float', fmt='csr')
             for params in (dict(weights='degree'), dict(weights='uniform')):
                 _both(ctx, normal, None, 'Paris', spec, dict(params=params), 'near_tie_' + mode, timeout=5)
+        # exact ties: unit-weight symmetric graphs x every registered algorithm (resolution varied where it exists)
+        for name in sorted(desc):
+            d = desc[name]
+            if name == 'get_cycles' or d['kinds'] == ['bip']:
+                continue
+            conn_only = not ('sym' in d['kinds'] or 'sq' in d['kinds'])
+            takes_res = name.split('[')[0] in ('Louvain', 'Leiden', 'LouvainIteration', 'LouvainHierarchy', 'LouvainEmbedding')
+            for k in range(6 if quick else 40):
+                spec, n, shape = symmetric_unit(rng)
+                while conn_only and shape == 'triangles':
+                    spec, n, shape = symmetric_unit(rng)
+                opts = cases.make_opts(rng, d, n, n, False)
+                if name == 'GNNClassifier':
+                    opts = cases.gnn_opts(rng, n)
+                if takes_res:
+                    opts.setdefault('params', {}).update(TIE_PARAMS[k % len(TIE_PARAMS)])
+                _both(ctx, normal, None, name, spec, opts, 'tie_' + shape, timeout=15)
         # oscillating configurations under the default (unbounded) number of sweeps
         for k in range(60 if quick else 600):
             spec, n = oscillating(rng)
